@@ -324,6 +324,18 @@ func TestC16(t *testing.T) {
 					c.Violation(sig, "resubmission of T as %q in %s returned code %d/%s and the recipient balance went %s -> %s (T itself already took effect)", name, where, r.Code, r.Codespace, before, after)
 				}
 			}
+			// prelude (a quarter of the cases): governance announces a new version (a second event on the stored upgrade, at the
+			// current height, no features named) and the node is restarted before T arrives - the protection against duplicates
+			// inside one block is a scheduled feature and has to survive both
+			if rapid.Bool().Draw(rt, "versionUpgradeThenRestartA") && rapid.Bool().Draw(rt, "versionUpgradeThenRestartB") {
+				up := &govTypes.MsgUpgrade{Address: chain.Addr(w.Spec.DAOOwner), Upgrade: govTypes.Upgrade{Height: n.Height + 1, Version: "0.12.0"}}
+				res := n.RunBlock(chain.Block{DT: time.Second, Proposer: chain.Addr(w.Nodes[0]), Txs: [][]byte{chain.SignTx(w.Spec.ChainID, up, chain.DefaultFee, "", entropy+7, w.Spec.DAOOwner)}})
+				c.Opf("prelude: version upgrade 0.12.0 at height %d -> %d/%s; restart", res.Height, res.Txs[0].Code, res.Txs[0].Codespace)
+				if res.Txs[0].Code == 0 {
+					c.Label("version-upgrade-then-restart-before-T")
+				}
+				n.Restart()
+			}
 			// block 1: T, then duplicates in the same block
 			n.BeginBlock(chain.Block{DT: time.Second, Proposer: chain.Addr(w.Nodes[0])})
 			if rapid.SampledFrom([]int{0, 0, 1}).Draw(rt, "anteFailureBeforeT") == 1 {
